@@ -50,6 +50,19 @@ def Inv (s : St) : Prop :=
   ContentOk s.content ∧ StampOk s
 instance (s : St) : Decidable (Inv s) := by unfold Inv; infer_instance
 
+/-- **What holds after every operation — completed or failed half-way — with no hypothesis at
+    all** (`C09_stamp_step`): the mode matches the file list, and piece hashes, if present, are the
+    ones computed for the current content path, file list and piece length. -/
+def InvS (s : St) : Prop := ContentOk s.content ∧ StampOk s
+instance (s : St) : Decidable (InvS s) := by unfold InvS; infer_instance
+
+/-- `Inv` without the clause "content of positive size has a piece length": what an operation
+    leaves behind when the recalculation of the piece length fails after the file list was
+    already replaced (`C09_weak_step`). -/
+def InvW (s : St) : Prop :=
+  s.pmin ≤ s.pmax ∧ Mult16 s.pmin ∧ Mult16 s.pmax ∧ PlOk s ∧ ContentOk s.content ∧ StampOk s
+instance (s : St) : Decidable (InvW s) := by unfold InvW; infer_instance
+
 /-- What an assignment must leave in a filter list (specification of `ML.readd`): the assigned
     items in order, every item once — later duplicates are dropped. -/
 def dedupFirst {α : Type} [DecidableEq α] : List α → List α
@@ -74,17 +87,63 @@ def OpOk (s : St) : Op → Prop
 instance (s : St) (op : Op) : Decidable (OpOk s op) := by
   unfold OpOk; split <;> infer_instance
 
-/-- every operation of a history satisfies `OpOk` in the state it is applied to -/
+/-- Hypothesis on one step for the **full** invariant: `OpOk`, and the operation did not fail
+    inside the recalculation of the piece length (the class's `calculate_piece_size` raised, or
+    returned a value the `piece_size` setter rejects).  A step that does fail there keeps `InvW`
+    (`C09_weak_step`) and the next successful content / piece-size assignment restores `Inv`
+    (`C09_inv_recovers`). -/
+def StepOk (env : Env) (s : St) (op : Op) : Prop := OpOk s op ∧ (apply env s op).2.faulted = false
+instance (env : Env) (s : St) (op : Op) : Decidable (StepOk env s op) := by
+  unfold StepOk; infer_instance
+
+/-- every operation of a history satisfies `StepOk` in the state it is applied to -/
 def AllOk (env : Env) : St → List Op → Prop
   | _, [] => True
-  | s, op :: ops => OpOk s op ∧ AllOk env (apply env s op).1 ops
+  | s, op :: ops => StepOk env s op ∧ AllOk env (apply env s op).1 ops
 
 def AllOk.dec (env : Env) : (s : St) → (ops : List Op) → Decidable (AllOk env s ops)
   | _, [] => isTrue True.intro
   | s, op :: ops =>
     have := AllOk.dec env (apply env s op).1 ops
-    inferInstanceAs (Decidable (OpOk s op ∧ AllOk env (apply env s op).1 ops))
+    inferInstanceAs (Decidable (StepOk env s op ∧ AllOk env (apply env s op).1 ops))
 instance (env : Env) (s : St) (ops : List Op) : Decidable (AllOk env s ops) := AllOk.dec env s ops
+
+/-- every operation of a history satisfies `OpOk` — failures of the recalculation are allowed
+    (hypothesis of the histories with failing steps: `C09_weak_history`, `C09_inv_tracked`) -/
+def AllOpOk (env : Env) : St → List Op → Prop
+  | _, [] => True
+  | s, op :: ops => OpOk s op ∧ AllOpOk env (apply env s op).1 ops
+
+def AllOpOk.dec (env : Env) : (s : St) → (ops : List Op) → Decidable (AllOpOk env s ops)
+  | _, [] => isTrue True.intro
+  | s, op :: ops =>
+    have := AllOpOk.dec env (apply env s op).1 ops
+    inferInstanceAs (Decidable (OpOk s op ∧ AllOpOk env (apply env s op).1 ops))
+instance (env : Env) (s : St) (ops : List Op) : Decidable (AllOpOk env s ops) := AllOpOk.dec env s ops
+
+/-- the assignments that, when they complete, end with a piece length for the content they leave:
+    a content assignment (its last step is the recalculation) or a `piece_size` assignment -/
+def restores : Op → Bool
+  | .setPath (some _) => true
+  | .setFiles _ => true
+  | .filesAppend _ => true
+  | .filesClear => true
+  | .setFilepaths _ => true
+  | .fpAppend _ => true
+  | .fpClear => true
+  | .setPieceSize _ => true
+  | _ => false
+
+/-- does the full invariant hold after the step, given whether it held before (`full`): lost by a
+    step that fails inside the recalculation, regained by a restoring assignment that completes -/
+def fullAfter (env : Env) (s : St) (full : Bool) (op : Op) : Bool :=
+  if (apply env s op).2.faulted then false
+  else full || (restores op && decide ((apply env s op).2 = .ok))
+
+/-- … at the end of a history -/
+def runFull (env : Env) : St → Bool → List Op → Bool
+  | _, full, [] => full
+  | s, full, op :: ops => runFull env (apply env s op).1 (fullAfter env s full op) ops
 
 /-- a value the bound setters accept (`None` or a positive multiple of 16 KiB) -/
 def legalBound : Option Int → Bool
@@ -103,18 +162,18 @@ def sameBound : Op → Op → Bool
     before both; neither changes the other bound). -/
 def AllOkC (env : Env) : St → List Op → Prop
   | _, [] => True
-  | s, [op] => OpOk s op
+  | s, [op] => StepOk env s op
   | s, op :: op' :: ops =>
-    (OpOk s op ∧ AllOkC env (apply env s op).1 (op' :: ops)) ∨
+    (StepOk env s op ∧ AllOkC env (apply env s op).1 (op' :: ops)) ∨
     (sameBound op op' = true ∧ OpOk s op' ∧ AllOkC env (apply env (apply env s op).1 op').1 ops)
 
 def AllOkC.dec (env : Env) : (s : St) → (ops : List Op) → Decidable (AllOkC env s ops)
   | _, [] => isTrue True.intro
-  | s, [op] => inferInstanceAs (Decidable (OpOk s op))
+  | s, [op] => inferInstanceAs (Decidable (StepOk env s op))
   | s, op :: op' :: ops =>
     have := AllOkC.dec env (apply env s op).1 (op' :: ops)
     have := AllOkC.dec env (apply env (apply env s op).1 op').1 ops
-    inferInstanceAs (Decidable ((OpOk s op ∧ AllOkC env (apply env s op).1 (op' :: ops)) ∨
+    inferInstanceAs (Decidable ((StepOk env s op ∧ AllOkC env (apply env s op).1 (op' :: ops)) ∨
       (sameBound op op' = true ∧ OpOk s op' ∧ AllOkC env (apply env (apply env s op).1 op').1 ops)))
 instance (env : Env) (s : St) (ops : List Op) : Decidable (AllOkC env s ops) := AllOkC.dec env s ops
 
@@ -127,22 +186,23 @@ def CopyOk (s : St) : Prop :=
   s.pieces = none ∧ (match s.pl with | none => True | some pl => defaultMin ≤ pl ∧ pl ≤ defaultMax)
 instance (s : St) : Decidable (CopyOk s) := by unfold CopyOk; split <;> infer_instance
 
-def OpOk2 (w : St2) : Op2 → Prop
-  | .on false op => OpOk w.a op
-  | .on true op => OpOk w.b op
+def OpOk2 (env : Env) (w : St2) : Op2 → Prop
+  | .on false op => StepOk env w.a op
+  | .on true op => StepOk env w.b op
   | .copy false => CopyOk w.a
   | .copy true => CopyOk w.b
-instance (w : St2) (op : Op2) : Decidable (OpOk2 w op) := by unfold OpOk2; split <;> infer_instance
+instance (env : Env) (w : St2) (op : Op2) : Decidable (OpOk2 env w op) := by
+  unfold OpOk2; split <;> infer_instance
 
 def AllOk2 (env : Env) : St2 → List Op2 → Prop
   | _, [] => True
-  | w, op :: ops => OpOk2 w op ∧ AllOk2 env (apply2 env w op).1 ops
+  | w, op :: ops => OpOk2 env w op ∧ AllOk2 env (apply2 env w op).1 ops
 
 def AllOk2.dec (env : Env) : (w : St2) → (ops : List Op2) → Decidable (AllOk2 env w ops)
   | _, [] => isTrue True.intro
   | w, op :: ops =>
     have := AllOk2.dec env (apply2 env w op).1 ops
-    inferInstanceAs (Decidable (OpOk2 w op ∧ AllOk2 env (apply2 env w op).1 ops))
+    inferInstanceAs (Decidable (OpOk2 env w op ∧ AllOk2 env (apply2 env w op).1 ops))
 instance (env : Env) (w : St2) (ops : List Op2) : Decidable (AllOk2 env w ops) := AllOk2.dec env w ops
 
 end Torf.Attrs
